@@ -6,6 +6,7 @@
 package wasm
 
 import (
+	"bytes"
 	"context"
 
 	"errors"
@@ -578,6 +579,33 @@ func vtsPolyBottom(s *valueTypeStack) bool {
 //@   ensures[leaves-one-frame] (old(len(s.stackLimits)) > 0 ==> len(s.stackLimits) == old(len(s.stackLimits))-1) && (old(len(s.stackLimits)) == 0 ==> len(s.stackLimits) == 0)
 //@   ensures[outer-frames-kept] forall i int :: 0 <= i && i < len(s.stackLimits) ==> s.stackLimits[i] == old[int](s.stackLimits[i])
 //@   modifies s.stackLimits
+
+// ---- C03: block types. Both compilers and the validator decode a block's type with DecodeBlockType and
+// then index Params / Results of what it returns without a nil check.
+func brOK(r *bytes.Reader) bool {
+	return r != nil && 0 <= verif_field_int(r, "i") && verif_field_int(r, "i") <= verif_field_len(r, "s")
+}
+
+func isShorthandBlockType(t *FunctionType) bool {
+	return t == blockType_v_v || t == blockType_v_i32 || t == blockType_v_i64 || t == blockType_v_f32 || t == blockType_v_f64 ||
+		t == blockType_v_v128 || t == blockType_v_funcref || t == blockType_v_externref
+}
+
+// shorthandBlockTypesSet: the package-level variables still hold the objects they were initialised with
+// (assumed: nothing assigns them - they are only read in this package).
+func shorthandBlockTypesSet() bool {
+	return blockType_v_v != nil && blockType_v_i32 != nil && blockType_v_i64 != nil && blockType_v_f32 != nil && blockType_v_f64 != nil &&
+		blockType_v_v128 != nil && blockType_v_funcref != nil && blockType_v_externref != nil
+}
+
+//@ prop C03
+//@ func DecodeBlockType(types []FunctionType, r *bytes.Reader, enabledFeatures api.CoreFeatures) (*FunctionType, uint64, error)
+//@   requires brOK(r) && shorthandBlockTypesSet()
+//@   ensures[type-or-error-never-both-nil] (r2 == nil) == (r0 != nil)
+//@   ensures[a-shorthand-or-an-entry-of-the-type-section] r2 == nil ==> isShorthandBlockType(r0) || (enabledFeatures&api.CoreFeatureMultiValue != 0 && exists k int :: 0 <= k && k < len(types) && r0 == &types[k])
+//@   ensures[consumed-what-it-reports] r2 == nil ==> r1 >= 1 && r1 <= 5 && verif_field_int(r, "i") == old(verif_field_int(r, "i")) + int(r1)
+//@   ensures[reader-stays-well-formed] brOK(r) && verif_field_len(r, "s") == old(verif_field_len(r, "s")) && verif_field_int(r, "i") >= old(verif_field_int(r, "i"))
+//@   modifies obj(r)
 
 // ---- C14: a decoded memory is accepted exactly when minimum <= maximum <= limit and the capacity lies
 // between the minimum and the limit.
